@@ -711,7 +711,7 @@ def _run_cases(ctx: Ctx, cases: list, label, search: bool = True):
 def known_replays():
     """Dedicated replays of the known findings (run first on every run)."""
     out, seen = [], set()
-    entries = list(common.load_known("C19"))
+    entries = [e for e in common.load_known("C19") if e.get("property") == "C19"]
     p = Path(__file__).resolve().parent.parent.parent / "tools" / "findings" / "C19.json"
     if p.exists():
         entries += json.loads(p.read_text())
